@@ -21,7 +21,21 @@ import ast
 from core.loader import FuncInfo, Repo, norm, own_nodes, parent
 
 BISECT = {"bisect", "bisect_left", "bisect_right", "insort", "insort_left", "insort_right"}
-PREFIX_COMPATIBLE_KEYS = {"str.lower", "str.upper", "str.casefold"}
+PREFIX_COMPATIBLE_KEYS = {"str.lower", "str.upper", "str.casefold", "components", "components-tuple"}
+# "components": the name split at the dots (`lambda n: n.split(".")`) - hierarchy order: a module is directly followed by all of
+# its sub modules, and only by them
+PY_KEYS = {None: None, "str.lower": str.lower, "str.upper": str.upper, "str.casefold": str.casefold, "components": lambda n: n.split("."), "components-tuple": lambda n: tuple(n.split("."))}
+
+
+def _components_of(b: ast.expr, p: str | None = None) -> str | None:
+    """'components' / 'components-tuple' when `b` is `<p>.split(".")` / `tuple(<p>.split("."))` (p: required receiver name)."""
+    tup = False
+    if isinstance(b, ast.Call) and isinstance(b.func, ast.Name) and b.func.id == "tuple" and len(b.args) == 1 and not b.keywords:
+        b, tup = b.args[0], True
+    if isinstance(b, ast.Call) and isinstance(b.func, ast.Attribute) and b.func.attr == "split" and len(b.args) == 1 and not b.keywords and isinstance(b.args[0], ast.Constant) and b.args[0].value == ".":
+        if p is None or (isinstance(b.func.value, ast.Name) and b.func.value.id == p):
+            return "components-tuple" if tup else "components"
+    return None
 
 
 def _is_bisect(repo: Repo, f: FuncInfo, call: ast.Call) -> bool:
@@ -48,6 +62,9 @@ def _key_text(k: ast.expr | None) -> str | None:
             return f"str.{b.func.attr}"
         if isinstance(b, ast.Name) and b.id == p:
             return None  # identity
+        comp = _components_of(b, p)
+        if comp is not None:
+            return comp
     return norm(k)
 
 
@@ -64,7 +81,26 @@ def _sortings(repo: Repo, f: FuncInfo, e: ast.expr, depth: int = 0) -> list[tupl
             return [(_key_text(_kw(e, "key")), bool(rev is not None and not (isinstance(rev, ast.Constant) and not rev.value)), e)]
         if isinstance(fn, ast.Name) and fn.id in ("list", "tuple") and len(e.args) == 1:
             return _sortings(repo, f, e.args[0], depth + 1)
+        if isinstance(fn, ast.Name) and fn.id == "filter" and len(e.args) == 2:
+            return _sortings(repo, f, e.args[1], depth + 1)  # a selection keeps the order
+        if isinstance(fn, ast.Attribute) and fn.attr == "fromkeys" and isinstance(fn.value, ast.Name) and fn.value.id in ("dict", "OrderedDict") and len(e.args) == 1:
+            return _sortings(repo, f, e.args[0], depth + 1)  # de-duplication in first-seen order
+        # a helper of the repo that returns the list
+        callee = _callee(repo, f, e)
+        if callee is not None:
+            rets = [r.value for r in own_nodes(callee.node) if isinstance(r, ast.Return) and r.value is not None]
+            if not rets:
+                return None
+            out_h: list[tuple[str | None, bool, ast.AST]] = []
+            for r in rets:
+                got = _sortings(repo, callee, r, depth + 1)
+                if got is None:
+                    return None
+                out_h += got
+            return out_h
         return None
+    if isinstance(e, (ast.ListComp, ast.GeneratorExp)) and len(e.generators) == 1 and isinstance(e.elt, ast.Name) and isinstance(e.generators[0].target, ast.Name) and e.generators[0].target.id == e.elt.id:
+        return _sortings(repo, f, e.generators[0].iter, depth + 1)  # [x for x in xs if ...]: a selection keeps the order
     targets: list[tuple[FuncInfo, ast.expr]] = []
 
     def same(t: ast.expr) -> bool:
@@ -101,9 +137,61 @@ def _sortings(repo: Repo, f: FuncInfo, e: ast.expr, depth: int = 0) -> list[tupl
                 out.append((_key_text(_kw(n, "key")), False, n))
     if not stores and not out:
         return None
+    if isinstance(e, ast.Name) and targets and all(_is_empty_list(v) for _m, v in targets) and not out:
+        # a list that starts empty and only ever receives, by append, the elements of one sorted iteration (some may be
+        # skipped): a sub-sequence of a sorted sequence is sorted
+        kept = _selected_in_order(repo, f, e.id, depth)
+        if kept is not None:
+            return kept
     if targets and not any(isinstance(x, ast.Call) and isinstance(x.func, ast.Attribute) and x.func.attr == "sort" for _k, _r, x in out):
         return None  # some assignment stores a list whose order is unknown and nothing sorts it in place
     return out
+
+
+def _callee(repo: Repo, f: FuncInfo, call: ast.Call) -> FuncInfo | None:
+    from .common import types_of
+
+    try:
+        cs, how = types_of(repo).callees(f, call, byname_fallback=False)
+    except Exception:  # noqa: BLE001
+        return None
+    cs = [c for c in cs if not c.is_abstract and not isinstance(c.node, ast.Lambda)]
+    if len(cs) == 1 and how == "repo" and not any(isinstance(n, (ast.Yield, ast.YieldFrom)) for n in own_nodes(cs[0].node)):
+        return cs[0]
+    return None
+
+
+def _is_empty_list(v: ast.expr) -> bool:
+    return (isinstance(v, ast.List) and not v.elts) or (isinstance(v, ast.Call) and isinstance(v.func, ast.Name) and v.func.id == "list" and not v.args and not v.keywords)
+
+
+def _selected_in_order(repo: Repo, f: FuncInfo, name: str, depth: int) -> list[tuple[str | None, bool, ast.AST]] | None:
+    from core.loader import ancestors
+
+    loops: list[ast.For] = []
+    for n in own_nodes(f.node):
+        if isinstance(n, ast.Call) and isinstance(n.func, ast.Attribute) and isinstance(n.func.value, ast.Name) and n.func.value.id == name:
+            if n.func.attr in ("index", "count", "copy", "__len__", "__contains__"):
+                continue
+            if n.func.attr != "append" or len(n.args) != 1 or not isinstance(n.args[0], ast.Name):
+                return None  # insert / extend / pop / sort ...: not a plain selection
+            loop = next((a for a in ancestors(n) if isinstance(a, (ast.For, ast.While, ast.AsyncFor))), None)
+            if not isinstance(loop, ast.For) or not isinstance(loop.target, ast.Name) or loop.target.id != n.args[0].id or loop.orelse:
+                return None
+            # the loop variable is not rebound inside the loop
+            if any(isinstance(x, ast.Name) and x.id == loop.target.id and isinstance(x.ctx, ast.Store) for st in loop.body for x in ast.walk(st)):
+                return None
+            if loop not in loops:
+                loops.append(loop)
+        elif isinstance(n, (ast.AugAssign, ast.Delete)) and any(isinstance(x, ast.Name) and x.id == name for x in ast.walk(n.target if isinstance(n, ast.AugAssign) else n)):
+            return None
+        elif isinstance(n, ast.Subscript) and isinstance(n.ctx, (ast.Store, ast.Del)) and isinstance(n.value, ast.Name) and n.value.id == name:
+            return None
+    if len(loops) != 1:
+        return None  # two loops appending to one list: the concatenation of two sorted runs is not sorted
+    if any(isinstance(a, (ast.For, ast.While, ast.AsyncFor)) for a in ancestors(loops[0]) if a is not f.node):
+        return None
+    return _sortings(repo, f, loops[0].iter, depth + 1)
 
 
 def _probe_key(f: FuncInfo, x: ast.expr, depth: int = 0) -> str | None:
@@ -111,6 +199,9 @@ def _probe_key(f: FuncInfo, x: ast.expr, depth: int = 0) -> str | None:
     if depth > 4:
         return None
     if isinstance(x, ast.Call):
+        comp = _components_of(x)
+        if comp is not None:
+            return comp
         if isinstance(x.func, ast.Attribute) and not x.args and not isinstance(x.func.value, ast.Constant) and x.func.attr in ("lower", "upper", "casefold"):
             return f"str.{x.func.attr}"
         if len(x.args) == 1 and not x.keywords and isinstance(x.func, (ast.Name, ast.Attribute)):
@@ -157,4 +248,37 @@ def bisect_sites(repo: Repo, funcs: list[FuncInfo]) -> list[tuple[FuncInfo, ast.
             if verdict == "ok":
                 why = f"`{norm(lst, 40)}` is sorted by {bkey or 'the natural order'} and searched under the same order" + (f" (probe passed through {pkey})" if bkey else "")
             out.append((f, n, verdict, why))
+    return out
+
+
+def witness_fields(repo: Repo, funcs: list[FuncInfo]) -> list[tuple[str, object, ast.Call]]:
+    """(text of the attribute holding the sorted list, Python key function or None, bisect call) for every binary search over
+    a list stored on the object that is produced by one plain `sorted(...)` (natural order or a character-wise key)."""
+    out = []
+    seen: set[str] = set()
+    for f in funcs:
+        if isinstance(f.node, ast.Lambda):
+            continue
+        for n in own_nodes(f.node):
+            if not (isinstance(n, ast.Call) and _is_bisect(repo, f, n) and len(n.args) >= 2):
+                continue
+            lst = n.args[0]
+            if not (isinstance(lst, ast.Attribute) and isinstance(lst.value, ast.Name) and lst.value.id in ("self", "cls")):
+                continue
+            text = norm(lst)
+            if text in seen:
+                continue
+            sorts = _sortings(repo, f, lst)
+            if not sorts or len(sorts) != 1:
+                continue
+            skey, rev, node = sorts[0]
+            if rev or not (isinstance(node, ast.Call) and isinstance(node.func, ast.Name) and node.func.id == "sorted"):
+                continue
+            if not (isinstance(parent(node), (ast.Assign, ast.AnnAssign)) and parent(node).value is node):
+                continue  # the sorted list is post-processed (pruned, sliced) before it is stored: its content is not `sorted(all names)`
+            key = PY_KEYS.get(skey, "?")
+            if key == "?":
+                continue
+            seen.add(text)
+            out.append((text, key, n))
     return out
